@@ -2,6 +2,7 @@ package main
 
 import (
 	"fmt"
+	"strings"
 
 	"github.com/cockroachdb/errors"
 	"github.com/cockroachdb/errors/barriers"
@@ -45,6 +46,128 @@ func oracleC07EmptyOverride(res *Result) {
 			if same {
 				res.fail(c, "C07.empty_override", fmt.Sprintf("%s after %d hop(s): identified with Handled() of the same hidden error (the hidden text shows through the mark)", ct.name, k), "C07:empty-override:is")
 				break
+			}
+		}
+	}
+}
+
+// oracleC07ErrorArgs: errors passed as arguments to Newf / Wrapf / AssertionFailedf are captured as
+// secondary errors — each of them, whatever their relation to one another (one wrapping the other,
+// two look-alikes with different details): every one stays fully visible in %+v and contributes
+// its safe details, locally and after hops.
+func oracleC07ErrorArgs(res *Result) {
+	c := &Case{ID: "error-args", Cmd: L(Sym("error-args"))}
+	inner := errors.WithTelemetry(errors.New("inner cause"), "argkey.inner")
+	outer := errors.WithHint(errors.Wrap(inner, "outer ctx"), "outer-hint-7f")
+	twinA := errors.WithSafeDetails(errors.New("twin"), "safe-%s", errors.Safe("alpha"))
+	twinB := errors.WithSafeDetails(errors.New("twin"), "safe-%s", errors.Safe("beta"))
+	type probe struct {
+		name  string
+		e     error
+		marks []string // strings that must occur in %+v (details of each argument)
+		safe  []string // strings that must occur in the safe details
+	}
+	probes := []probe{
+		{"Newf(inner, outer)", errors.Newf("a %v b %v", inner, outer), []string{"argkey.inner", "outer-hint-7f"}, []string{"argkey.inner"}},
+		{"Newf(outer, inner)", errors.Newf("a %v b %v", outer, inner), []string{"argkey.inner", "outer-hint-7f"}, []string{"argkey.inner"}},
+		{"Wrapf(base; inner, outer)", errors.Wrapf(errors.New("base"), "a %v b %v", inner, outer), []string{"argkey.inner", "outer-hint-7f"}, []string{"argkey.inner"}},
+		{"AssertionFailedf(inner, outer)", errors.AssertionFailedf("a %v b %v", inner, outer), []string{"argkey.inner", "outer-hint-7f"}, []string{"argkey.inner"}},
+		{"Newf(twinA, twinB)", errors.Newf("x %v y %v", twinA, twinB), []string{"safe-alpha", "safe-beta"}, []string{"safe-alpha", "safe-beta"}},
+		{"Newf(twinB, twinA)", errors.Newf("x %v y %v", twinB, twinA), []string{"safe-alpha", "safe-beta"}, []string{"safe-alpha", "safe-beta"}},
+	}
+	for _, p := range probes {
+		for k := 0; k <= 2; k++ {
+			res.OracleEvals["C07.error_args"]++
+			e, ok := hopsReal(p.e, k)
+			if !ok || e == nil {
+				res.fail(c, "C07.error_args", fmt.Sprintf("%s: hop %d panics", p.name, k), "C07:error-args:panic")
+				break
+			}
+			var pv, sd string
+			if ok, v := catch(func() {
+				pv = fmt.Sprintf("%+v", e)
+				sd = fmt.Sprintf("%q", errors.GetAllSafeDetails(e))
+			}); !ok {
+				res.fail(c, "C07.error_args", fmt.Sprintf("%s: panics: %v", p.name, v), "C07:error-args:panic")
+				break
+			}
+			bad := ""
+			for _, m := range p.marks {
+				if !strings.Contains(pv, m) {
+					bad = "%+v lacks " + m
+				}
+			}
+			for _, m := range p.safe {
+				if !strings.Contains(sd, m) {
+					bad = "the safe details lack " + m
+				}
+			}
+			if n := strings.Count(pv, "secondary error attachment"); n < 2 {
+				bad = fmt.Sprintf("%d secondary error attachment(s) for two error arguments", n)
+			}
+			if bad != "" {
+				res.fail(c, "C07.error_args", fmt.Sprintf("%s after %d hop(s): %s", p.name, k, bad), "C07:error-args")
+				break
+			}
+		}
+	}
+}
+
+// oracleDeepMulti: a multi-cause error one of whose branches is a chain of many wrappers, local and
+// received: %+v (plain and redactable), the report and the other observers neither panic nor print
+// a PANIC= marker, and %+v still names the innermost leaf of every branch.
+func oracleDeepMulti(res *Result, prop string) {
+	c := &Case{ID: "deep-multi", Cmd: L(Sym("deep-multi"))}
+	for _, n := range []int{5, 12, 17, 18, 19, 24, 40, 70} {
+		var chain error = errors.New("deepest-leaf-x")
+		for i := 0; i < n; i++ {
+			switch i % 3 {
+			case 0:
+				chain = errors.WithMessage(chain, fmt.Sprintf("l%d", i))
+			case 1:
+				chain = errors.WithHint(chain, "h")
+			default:
+				chain = errors.WithStack(chain)
+			}
+		}
+		for _, mk := range []namedErr{
+			{"Join(chain, leaf)", errors.Join(chain, errors.New("other-leaf-y"))},
+			{"fmt %w %w", fmt.Errorf("both: %w and %w", chain, errors.New("other-leaf-y"))},
+			{"Wrap(Join(leaf, chain))", errors.Wrap(errors.Join(errors.New("other-leaf-y"), chain), "top")},
+		} {
+			for k := 0; k <= 2; k++ {
+				res.OracleEvals[prop+".deep_multi"]++
+				e, ok := hopsReal(mk.e, k)
+				if !ok || e == nil {
+					res.fail(c, prop+".deep_multi", fmt.Sprintf("%s with %d layers: hop %d panics", mk.name, n, k), prop+":deep-multi:panic")
+					break
+				}
+				var outs []string
+				if ok, v := catch(func() {
+					outs = append(outs, fmt.Sprintf("%+v", e), string(redact.Sprintf("%+v", e)), fmt.Sprintf("%v", e))
+					ev, _ := errors.BuildSentryReport(e)
+					if ev != nil {
+						outs = append(outs, ev.Message)
+					}
+					_ = errors.GetAllSafeDetails(e)
+					_ = errors.EncodeError(bgCtx, e)
+				}); !ok {
+					res.fail(c, prop+".deep_multi", fmt.Sprintf("%s with %d layers after %d hop(s): panics: %v", mk.name, n, k, v), prop+":deep-multi:panic")
+					break
+				}
+				bad := ""
+				for _, o := range outs {
+					if strings.Contains(o, "PANIC=") {
+						bad = "a rendering contains PANIC="
+					}
+				}
+				if !strings.Contains(outs[0], "deepest-leaf-x") || !strings.Contains(outs[0], "other-leaf-y") {
+					bad = "%+v does not show the leaf of every branch"
+				}
+				if bad != "" {
+					res.fail(c, prop+".deep_multi", fmt.Sprintf("%s with %d layers after %d hop(s): %s", mk.name, n, k, bad), prop+":deep-multi")
+					break
+				}
 			}
 		}
 	}
